@@ -237,7 +237,7 @@ func (e *routeEngine) mkNodes(n int) {
 		if err := conf.AccessLog.Validate(); err != nil {
 			panic("generated configuration is not legal: " + err.Error())
 		}
-		ln, err := net.Listen("tcp", "127.0.0.1:0")
+		ln, err := ListenRetry("tcp", "127.0.0.1:0")
 		if err != nil {
 			panic(err)
 		}
